@@ -585,6 +585,115 @@ func overriddenFields(cp *ssa.Store) map[int]bool {
 			}
 		}
 	}
+	// the deep parts done in a loop over the addresses of the fields:
+	//   for _, f := range []**T{&c.a, &c.b} { if *f != nil { v := **f; *f = &v } }
+	// every listed field ends up nil (then the copy held nil: nothing shared) or pointing to a new cell
+	for _, r := range *al.Referrers() {
+		fa, ok := r.(*ssa.FieldAddr)
+		if !ok {
+			continue
+		}
+		for _, r2 := range *fa.Referrers() {
+			put, ok := r2.(*ssa.Store)
+			if !ok || put.Val != ssa.Value(fa) || !after(put) {
+				continue
+			}
+			ea, ok := put.Addr.(*ssa.IndexAddr)
+			if !ok {
+				continue
+			}
+			arr, ok := ea.X.(*ssa.Alloc)
+			if !ok {
+				continue
+			}
+			// the literal is only filled and sliced
+			var sl *ssa.Slice
+			okArr := true
+			for _, ar := range *arr.Referrers() {
+				switch x := ar.(type) {
+				case *ssa.IndexAddr:
+					for _, ar2 := range *x.Referrers() {
+						if st, isSt := ar2.(*ssa.Store); !isSt || st.Addr != ssa.Value(x) {
+							okArr = false
+						}
+					}
+				case *ssa.Slice:
+					if sl != nil || x.Low != nil || x.High != nil {
+						okArr = false
+					}
+					sl = x
+				case *ssa.DebugRef:
+				default:
+					okArr = false
+				}
+			}
+			if !okArr || sl == nil {
+				continue
+			}
+			// the range loop over it: element pointers loaded from &slice[i]
+			for _, sr := range *sl.Referrers() {
+				ia, ok := sr.(*ssa.IndexAddr)
+				if !ok {
+					continue
+				}
+				body := ia.Block()
+				if len(body.Preds) != 1 {
+					continue
+				}
+				header := body.Preds[0]
+				if !strings.HasPrefix(header.Comment, "rangeindex") || !passedByAll(header) {
+					continue
+				}
+				for _, ir := range *ia.Referrers() {
+					elem, ok := ir.(*ssa.UnOp) // the **T of this round
+					if !ok || elem.Op != token.MUL {
+						continue
+					}
+					// if *elem != nil { *elem = new cell }
+					iff, ok := body.Instrs[len(body.Instrs)-1].(*ssa.If)
+					if !ok {
+						continue
+					}
+					bo, ok := iff.Cond.(*ssa.BinOp)
+					if !ok || bo.Op != token.NEQ || !isNilConst(bo.Y) {
+						continue
+					}
+					tl, ok := bo.X.(*ssa.UnOp)
+					if !ok || tl.Op != token.MUL || tl.X != ssa.Value(elem) {
+						continue
+					}
+					then := body.Succs[0]
+					if len(then.Preds) != 1 || len(then.Succs) != 1 || then.Succs[0] != header || body.Succs[1] != header {
+						continue
+					}
+					replaced := false
+					for _, ti := range then.Instrs {
+						if st, ok := ti.(*ssa.Store); ok && st.Addr == ssa.Value(elem) {
+							if _, fresh := st.Val.(*ssa.Alloc); fresh {
+								replaced = true
+							}
+						}
+					}
+					// the struct is not seen by anybody before the loop is done
+					var done *ssa.BasicBlock
+					for _, sc := range header.Succs {
+						if sc != body {
+							done = sc
+						}
+					}
+					hidden := done != nil
+					for _, e := range escapes {
+						if done == nil || !(done == e.Block() || done.Dominates(e.Block())) {
+							hidden = false
+						}
+					}
+					if replaced && hidden {
+						out[fa.Field] = true
+					}
+				}
+			}
+		}
+	}
 	return out
 }
 
